@@ -255,6 +255,17 @@ async def run_store(backend, store_seed, singles, multis, counters, explicit=Non
             reqs = []
             for _ in range(singles):
                 reqs.append(([u.hostile_filter(pool)], True))
+            # conditions with hundreds of values (client libraries send whole follow lists): the values stay
+            # bound to THEIR tag name, whatever their number
+            carried = [(t[0], t[1]) for e in pool for t in e["tags"] if isinstance(t, list) and len(t) > 1 and isinstance(t[0], str) and len(t[0]) == 1 and isinstance(t[1], str) and t[1]]
+            for _ in range(3 if carried else 0):
+                name, val = u.rng.choice(carried)
+                other = u.rng.choice([x for x in "eptgz" if x != name])
+                nvals = u.rng.choice([499, 500, 501, 650, 1201])
+                fillers = ["!%05d" % i for i in range(nvals - 1)]  # sort before every value of the store
+                reqs.append(([{"#" + other: fillers + [val]}], False))
+                reqs.append(([{"#" + other: fillers + [val], "kinds": [1, 7, 255, 256, 40000]}], False))
+                counters["filters_with_hundreds_of_values"] = counters.get("filters_with_hundreds_of_values", 0) + 2
             for _ in range(multis):
                 n = u.rng.randint(2, 5)
                 reqs.append(([u.hostile_filter(pool) if u.rng.random() < 0.7 else u.wellformed_filter(pool) for _ in range(n)], False))
